@@ -1033,7 +1033,15 @@ def rule_R14q(text, applied, arg=None):
         m_text = mask(text)
         m = re.search(r"\)\s*\?", m_text)
         if not m:
-            break
+            # `IDENT?` on a plain local
+            mi_ = re.search(r"(?<![\w\.:])([a-z_]\w*)\s*\?(?!\w)", m_text)
+            if not mi_:
+                break
+            conv = "e_" if arg == "same" else "From::from(e_)"
+            new = f"(match {mi_.group(1)} {{ Ok(v_) => v_, Err(e_) => return Err({conv}) }})"
+            text = text[:mi_.start()] + _keep_newlines(text[mi_.start():mi_.end()], new) + text[mi_.end():]
+            cnt += 1
+            continue
         q = m.end() - 1
         start = _receiver_start(m_text, q)
         expr = text[start:m.start() + 1]
@@ -1514,6 +1522,28 @@ def rule_R7own(text, applied):
     return text
 
 
+def rule_R29(text, applied):
+    """`while let Some(X) = E { BODY }` -> its definition `loop { let wlN_ = E; match wlN_ { Some(X) => { BODY } None => { break; } } }`
+    (so that a proof step can be placed between the evaluation of E and the test)."""
+    cnt = 0
+    while True:
+        m_text = mask(text)
+        m = re.search(r"\bwhile\s+let\s+Some\(\s*(\w+)\s*\)\s*=\s*", m_text)
+        if not m:
+            break
+        ob = next_body_brace(m_text, m.end())
+        if ob < 0:
+            raise ExtractError("R29: no loop body")
+        cb = match_close(m_text, ob)
+        e = text[m.end():ob].strip()
+        head = f"loop {{ let wl{cnt}_ = {e}; match wl{cnt}_ {{ Some({m.group(1)}) => {{"
+        text = text[:m.start()] + _keep_newlines(text[m.start():ob + 1], head) + text[ob + 1:cb] + "} None => { break; } } }" + text[cb + 1:]
+        cnt += 1
+    if cnt:
+        applied.append(f"R29x{cnt}")
+    return text
+
+
 def rule_R8bitget(text, applied):
     """`E.get(I).as_deref().copied()` on a BitVec -> `E.vget(I)` (stub method: Some(bit) in range, None beyond)."""
     t, n = _sub_masked(text, r"\.\s*get\(([^\)]+)\)\s*\.\s*as_deref\(\)\s*\.\s*copied\(\)", lambda m, s: f".vget({m.group(1).strip()})")
@@ -1788,7 +1818,7 @@ RULES = {
     "R25": rule_R25, "R7optake": rule_R7optake,
     "R23": rule_R23, "R24": rule_R24,
     "R16push": rule_R16push, "R22": rule_R22, "R22flat": rule_R22flat,
-    "R20": rule_R20, "R21": rule_R21, "R7stackrev": rule_R7stackrev, "R7pairs": rule_R7pairs, "R7indexmap": rule_R7indexmap, "R12frozen": rule_R12frozen, "R7own": rule_R7own, "R28": rule_R28, "R27": rule_R27, "R8all": rule_R8all, "R16od": rule_R16od, "R10site": rule_R10site,
+    "R20": rule_R20, "R21": rule_R21, "R7stackrev": rule_R7stackrev, "R7pairs": rule_R7pairs, "R7indexmap": rule_R7indexmap, "R12frozen": rule_R12frozen, "R29": rule_R29, "R7own": rule_R7own, "R28": rule_R28, "R27": rule_R27, "R8all": rule_R8all, "R16od": rule_R16od, "R10site": rule_R10site,
     "R1": rule_R1, "R2": rule_R2, "R2ref": rule_R2ref, "R3": rule_R3, "R4": rule_R4, "R5": rule_R5,
     "R8max": rule_R8max, "R8cmpmax": rule_R8cmpmax, "R8resize_none": rule_R8resize_none, "R9": rule_R9, "R8position": rule_R8position, "R8rotate": rule_R8rotate, "R12refcell": rule_R12refcell,
     "R8slice": rule_R8slice, "R7iter": rule_R7iter, "R8bitget": rule_R8bitget, "R8intonext": rule_R8intonext, "R8rposition": rule_R8rposition, "R8contains": rule_R8contains, "R12cell": rule_R12cell, "R8resize_veccap": rule_R8resize_veccap, "R8collectid": rule_R8collectid, "R8index": rule_R8index, "subst": rule_subst,
